@@ -1,11 +1,13 @@
 /-
 Driver for the SOCKS model (C18): executes the reader scripts, the writers and the UDP header
 functions of `Penguin.Socks`, and the builders / client parsers of `Spec.Rfc1928` and `Spec.Socks4a`,
-on request lines (see `harness/src/bin/socks.rs` for the line protocol).
+on request lines (see `harness/src/bin/socks.rs` for the line protocol); and the session handler of
+`Penguin.SocksSession` (op `sess`, see `harness-full/src/bin/socks_session.rs`).
 -/
 import Penguin.Basic.Bytes
 import Penguin.Basic.Loop
 import Penguin.Model.Socks
+import Penguin.Model.SocksSession
 import Penguin.Spec.Rfc1928
 import Penguin.Spec.Socks4a
 
@@ -86,6 +88,62 @@ def hostOfKind? (atyp : String) (raw : Bytes) : Option Host :=
   | "4" => some ⟨.ipv6, raw⟩
   | _ => none
 
+/-! ### The session handler (`Penguin.SocksSession`) -/
+
+section session
+open Penguin.SocksSession
+
+def showSessRes : Res → String
+  | .ok => "ok"
+  | .bridge => "bridge"
+  | .needMore => "pending"
+  | .err (.socks (.reader e)) => "err:" ++ showErr e
+  | .err (.socks (.invalidCommand c)) => s!"err:invalid-command:{c.toNat}"
+  | .err (.socks .bindUdp) => "err:bind-udp"
+  | .err (.socks .udpLocalAddr) => "err:udp-local-addr"
+  | .err .otherAuth => "err:other-auth"
+  | .err .fatalRequestStream => "err:fatal:request-stream"
+  | .err .fatalMainLoopExit => "err:fatal:main-loop-exit"
+
+def showSockAddr : SockAddr → String
+  | .v4 o p => s!"4:{toHex o}:{p}"
+  | .v6 o p => s!"6:{toHex o}:{p}"
+
+def listOrDash (l : List String) : String := if l.isEmpty then "-" else ",".intercalate l
+
+/-- `<result>|w=<written>|req=<host>:<port>,…|relay=<fam>:<octets>:<port>|left=<handed to the bridge>` -/
+def showSessState (o : Outcome) : String :=
+  let reqs := o.requests.map fun (h, p) => s!"{hexOrDash h.render}:{p}"
+  let relays := o.relays.map showSockAddr
+  s!"{showSessRes o.result}|w={hexOrDash o.written}|req={listOrDash reqs}|relay={listOrDash relays}|left={hexOrDash o.leftover}"
+
+def udpAnswer? (s : String) : Option UdpAnswer :=
+  match s.splitOn ":" with
+  | ["bindfail"] => some .bindFails
+  | ["lafail"] => some .localAddrFails
+  | ["ok", fam, raw, port] => (sockAddr? fam raw port).map .bound
+  | _ => none
+
+def chunks? (s : String) : Option (List Bytes) :=
+  if s = "-" then some [] else (s.splitOn ",").mapM ofHex
+
+/-- The inputs after each chunk: the bytes sent so far, stream open. -/
+def prefixes (chunks : List Bytes) : List Bytes :=
+  (chunks.foldl (fun (acc : Bytes × List Bytes) c => (acc.1 ++ c, (acc.1 ++ c) :: acc.2)) ([], [])).2.reverse
+
+/-- One state per chunk (stream open after it) and, with `eof`, one more after the close; then what had
+    been written when the tunnel was requested. -/
+def sessAnswer (reserve stream : Bool) (udp : UdpAnswer) (eof : Bool) (chunks : List Bytes) : String :=
+  let env : Env := ⟨reserve, stream, udp⟩
+  let all := chunks.flatten
+  let opens := (prefixes chunks).map fun p => session ⟨p, false⟩ env
+  let outs := if eof then opens ++ [session ⟨all, true⟩ env] else opens
+  let final := session ⟨all, eof⟩ env
+  let wb := if final.requests.isEmpty then "none" else hexOrDash (written (beforeRequest final.trace))
+  ";".intercalate (outs.map showSessState) ++ " wb=" ++ wb
+
+end session
+
 def answer (toks : List String) : Option String :=
   match toks with
   | [op, h, e] =>
@@ -102,6 +160,8 @@ def answer (toks : List String) : Option String :=
       let host ← hostOfKind? h (← ofHex e)
       pure (hexOrDash host.render)
     | _ => none
+  | ["sess", r, st, udp, e, chunks] => do
+    pure (sessAnswer (← parseEof r) (← parseEof st) (← udpAnswer? udp) (← parseEof e) (← chunks? chunks))
   | ["wr5", rep, fam, raw, port] => do
     pure (toHex (writeResponse5 (← byte? rep) (← sockAddr? fam raw port)))
   | ["wru", rep] => do pure (toHex (writeResponseUnspecified (← byte? rep)))
